@@ -161,7 +161,7 @@ def predecessors(family, o, n):
     return chunk[o["_pos"] - n:o["_pos"]]
 
 
-def run_driver(driver, family, cases, nproc=None, env=None, per_case_timeout=120, args=()):
+def run_driver(driver, family, cases, nproc=None, env=None, per_case_timeout=120, args=(), record=True):
     """Run cases (dicts with 'id') through 'driver run <family>' on several processes.
     Returns {id: result}. A process death is attributed to the case in flight ({'crash': True})."""
     if not cases:
@@ -172,7 +172,7 @@ def run_driver(driver, family, cases, nproc=None, env=None, per_case_timeout=120
     for c in cases:
         c["id"] = str(c["id"])
     chunks = [cases[k::nproc] for k in range(nproc)]
-    if len(cases) > 1:
+    if len(cases) > 1 and record:
         _last_runs[family] = {"cases": cases, "np": nproc}
     results = {}
     scratch = tempfile.mkdtemp(prefix="drv.", dir=os.path.dirname(driver))
